@@ -92,6 +92,8 @@ def api_variants(fam, seed, p=0.35):
             for f in lvl["named"]:
                 if f.get("kind") == "alt" and rnd.random() < p:
                     f["via_choice"] = True
+                elif f.get("kind") == "alt" and rnd.random() < p:
+                    f["via_right_nested"] = True
                 if f.get("group_help") and rnd.random() < p:
                     f["via_with_group_help"] = True
                 if f.get("kind") == "pure" and rnd.random() < 0.5:
@@ -669,6 +671,51 @@ def posb(id, vt="int"):
     return {"kind": "pos", "id": id, "vt": vt, "arity": "one", "strict": "any", "help": f"HELP-{id}", "metavar": f"MV{id.upper()}",
             "hidden": False, "shorts": [], "longs": [], "env": "", "guard": False, "catch": False, "lchars": [], "completer": [],
             "letters": [], "adj": False}
+
+
+def alt_short_family(seed, n, maxlen=3, budget=4000):
+    """choices between flags with short names, written one by one or several in one item (`-ab`), the choice nested to
+    the left (the usual expansion) or to the right"""
+    rnd = random.Random(seed)
+    out = []
+    wraps = ["many", "some", "one", "opt", "count"]
+    for i in range(n):
+        nb = 2 + i % 2
+        branches = [branch(rf(f"b{j}", "one", f"-{'abc'[j]}", *([f"--long{j}"] if (i + j) % 3 == 0 else []))) for j in range(nb)]
+        g = altf("g0", wraps[i % 5], *branches)
+        g["via_right_nested"] = i % 2 == 1
+        others = [sw("o1", "-v")] if i % 3 == 0 else []
+        fields = others + [g] if i % 4 < 2 else [g] + others
+        d = mkdef(f"altsh{seed}_{i}", level(fields, NOTAIL), maxlen=maxlen, extras=rnd.choice([("unk",), ()]), spells=("sep",), words=("1",),
+                  clusters=True)
+        galpha_trim(d, budget)
+        out.append(d)
+    return out
+
+
+def lit_family(seed, n, maxlen=3, budget=4000):
+    """choices between fixed words (`literal`), one of them a proper prefix of another, next to a flag branch"""
+    rnd = random.Random(seed)
+    out = []
+    wraps = ["many", "one", "opt", "some"]
+    sets = [["build", "build-all", "clean"], ["build-all", "build"], ["go", "gone", "g"]]
+    for i in range(n):
+        words = sets[i % 3]
+        branches = []
+        for j, w in enumerate(words):
+            b = posb(f"l{j}", "str")
+            b["lit"] = w
+            branches.append(branch(b))
+        if i % 2:
+            branches.insert(rnd.randrange(len(branches) + 1), branch(rf("bf", "one", "--flag")))
+        g = altf("g0", wraps[i % 4], *branches)
+        tail = postail(pos("p0", "many")) if i % 4 == 2 else NOTAIL
+        d = mkdef(f"lit{seed}_{i}", level([g], tail), maxlen=maxlen, extras=rnd.choice([("unk",), ("dd",), ()]), spells=("sep",),
+                  words=tuple(words) + ("cleanup" if "clean" in words else "goner",))
+        galpha_trim(d, budget)
+        d["alpha"]["words"] = list(words) + ["cleanup" if "clean" in words else "goner"]
+        out.append(d)
+    return out
 
 
 def alt_pos_family(seed, n, maxlen=3, budget=4000):
